@@ -2,13 +2,48 @@ from common import T_COMMON
 
 CFG = dict(
     gen=[dict(spec="transform.json", out="Transform.lean")],
-    theorems=["aabb_lower_bound", "aabb_contains_mono", "aabb_distance_mono", "slab_mono", "aabb_encapsulate_contains",
-              "pruned_eq_scan", "containing_eq_scan_generic",
-              "containing_eq_scan", "withinRange_eq_scan", "rayElements_eq_scan",
-              "closest_eq_scan_generic", "seg_cp_cases", "prim_closest_in_box", "closest_eq_scan",
-              "prim_box_wf", "build_covers", "octree_queries_eq_scan_of_input"],
-    streams=[dict(name="c16", n=dict(quick=120, thorough=4000))],
-    trusted=T_COMMON,
-    residue=[],
+    theorems=[
+        # geometry facts about the regenerated AABB code / the hand-modelled slab test (over ℝ)
+        "aabb_lower_bound", "aabb_contains_mono", "aabb_distance_mono", "slab_mono", "aabb_encapsulate_contains",
+        "seg_cp_cases", "prim_closest_in_box", "prim_box_wf",
+        # pruned queries = exhaustive scan for EVERY tree with the invariant
+        "pruned_eq_scan", "containing_eq_scan_generic",
+        "containing_eq_scan", "withinRange_eq_scan", "rayElements_eq_scan", "traverse_visits_all_hits",
+        # best-first closest point
+        "closest_eq_scan_generic", "closest_eq_scan",
+        # newOctree establishes the invariant: every element list, every depth
+        "build_covers", "octree_queries_eq_scan_of_input",
+        # BVH
+        "bvh_hit_eq_list", "bvh_hit_eq_list_aabb", "hitlist_nearest", "bvh_hit_eq_hitlist_any_order",
+    ],
+    streams=[dict(name="c16", n=dict(quick=150, thorough=6000))],
+    trusted=T_COMMON + [
+        "Model/Tree.lean is a hand transcription of trees/octree.go, rendering/bvh.go, rendering/hit.go and of "
+        "AABB.IntersectsRayInRange (pointer-based helper); tied by bit-exact correspondence of bounds, visit order of every "
+        "query result and closest point on points / line strips / boxes (Float run of the same definitions)",
+        "Go container/heap (which of several equal keys is popped is unspecified; modelled as first-minimal)",
+        "math.Log vs libm log in OctreeDepthFromCount: the automatic depth is compared for every count 0..300",
+    ],
+    residue=[
+        "IEEE-754 rounding: theorems are over ℝ. At float64 a box stores centre/extents, so Min()/Max() are rounded; the octree "
+        "compensates with the widening loop of newOctree (modelled; a no-op over ℝ). That the float tree satisfies Covers is "
+        "observed (oracles at element vertices/box corners, corpus case), not proved",
+        "an element's ClosestPoint may lie an ulp outside its own float box, so at float64 ClosestPoint can return an element that is "
+        "not the nearest by less than rounding: the oracle compares by distance with relative tolerance 1e-9 (ties aside)",
+        "triangle elements (modeling.scopedTri: plane projection, PointInSide) are not modelled in Lean: for them the tree theorems apply "
+        "through the abstract hypotheses (box contains the element's closest point) and the tie is the exhaustive-scan oracle only",
+        "closest_eq_scan needs, per element, that its closest point lies in its box: proved for points, segments and boxes "
+        "(prim_closest_in_box), assumed for triangles",
+        "BVH: theorems quantify over every tree satisfying BInv (boxes cover) and over primitives whose Hit reports the first hit "
+        "within the range and only inside their box; that NewBVHTree establishes BInv (bvhBuild is modelled) and that "
+        "rendering.Triangle/Sphere satisfy the primitive contract are not proved — checked by the oracles c16.holds.bvh / bvh_scan. "
+        "The triangle Hit compares the distance from ray.At(min) with max (rendering/mesh.go:53), so the contract holds for "
+        "min = 0 only; the harness uses min = 0 for rendering",
+        "slab test over ℝ uses Lean's x/0 = 0 for axis-parallel rays, where Go relies on ±Inf/NaN: slab_mono is about the "
+        "real-number reading; axis-parallel rays are exercised by correspondence (c16.aabb.ray, grid/planar sets)",
+        "TraverseIntersectingRay with a callback that moves the range (as rendering.Mesh.Hit does) is modelled (Oct.traverse) but "
+        "the theorem covers the range-preserving callback; the range-moving use is checked by the oracle `octmesh` vs HitList",
+        "negative maxDepth (unbounded recursion on coincident elements in Go) is outside the model: depth is a natural number",
+    ],
     assumptions=["float64 arithmetic in Go on amd64 is IEEE-754 without FMA contraction"],
 )
